@@ -85,7 +85,11 @@ theorem parse_text_parser_error_in_range (fl : Flags) (s : Text) (pe : SynErr) :
 def ParseTextErrorInRangeStatement : Prop :=
   ∀ (fl : Flags) (s : Text) (e : TextErr), parseTextE fl s = .error e → e.pos ≤ s.length
 
-/-- `parse_text_error_in_range_partial`: a rejected text reports a position `0 ≤ p ≤ len(text)`, the ONLY excluded
+/-- NOTE (audit F7c): `parseTextE` is the EAGER composition (lexer, then parser). The real `Parser` pulls tokens lazily and,
+    for a text with a lexical error, may report an EARLIER grammatical error instead; that pipeline is `parseTextLazyE`
+    (`ParseLazy.lean`), and the same statement is proved for it as `parse_text_lazy_error_in_range` (`Props/C01_lazy.lean`),
+    together with `lazy_ok_iff` (acceptance and tree do not depend on the window).
+    `parse_text_error_in_range_partial`: a rejected text reports a position `0 ≤ p ≤ len(text)`, the ONLY excluded
     case being L6 — the lexer's `NonTerminatedString` at `len + 1` when the text ends inside an escape sequence
     (exactly the exception of `error_in_range_partial`).  Holds for `parse`, `parse_value`, `parse_type`, all flags. -/
 theorem parse_text_error_in_range_partial (fl : Flags) (s : Text) (e : TextErr)
